@@ -74,10 +74,11 @@ Proof. intros ->. reflexivity. Qed.
 End P.
 
 (** tactics *)
+Ltac synrefl := lazymatch goal with |- ?x = ?x => reflexivity end.
 Ltac side :=
-  first [ reflexivity | assumption | apply cong_to_s | apply cong_refl
-        | (symmetry; apply to_s_small; unfold word, M64, H64 in *; lia)
-        | (unfold cong; rewrite to_s_small by (unfold word, M64, H64 in *; lia); reflexivity)
+  first [ assumption | apply cong_to_s | apply cong_refl | synrefl
+        | (apply to_s_small; unfold word, srange, M64, H64 in *; lia)
+        | (unfold cong; rewrite to_s_small by (unfold word, srange, M64, H64 in *; lia); synrefl)
         | (unfold word, srange, M64, H64 in *; lia) ].
 
 Ltac ranges :=
@@ -87,18 +88,27 @@ Ltac ranges :=
       | _ => pose proof (to_s_range w H) end
   end.
 
+(* a signed reading known to be non-negative is the word itself *)
+Ltac norm_to_s :=
+  repeat match goal with
+  | H : word ?w |- context [to_s ?w] =>
+      let E := fresh "E" in
+      assert (E : to_s w = w) by (apply (to_s_nonneg w H); unfold srange, H64 in *; lia);
+      rewrite E in *
+  end.
+
 Ltac arith_goal :=
   first
   [ eapply iadd_ok; side | eapply isub_ok; side | eapply imul_ok; side | eapply ineg_ok; side
   | eapply ipow_ok; side
   | eapply iabs_ok; side
   | eapply ishl_ok; side
-  | (rewrite ?to_s_small by (unfold word, srange, M64, H64 in *; lia); eapply ishr_ok; side)
+  | eapply ishr_ok; side
   | eapply iand_ok; side | eapply ior_ok; side | eapply ixor_ok; side | eapply inot_ok; side
   | eapply idiv_u_ok; side | eapply imod_u_ok; side | eapply idivmod_u_ok; side
   | eapply idiv_s_ok; side | eapply imod_s_ok; side | eapply idivmod_s_ok; side
-  | (rewrite <- ?(to_s_small _) at 1; fail)
-  | eapply is_to_u_ok; side
+  | eapply idiv_s_un; side | eapply imod_s_un; side | eapply idivmod_s_un; side
+  | eapply is_to_u_ok; side | eapply is_to_u_small; side | eapply abs_nat_ok; side
   | (symmetry; apply wrap_u_id; assumption)
   | (symmetry; apply wrap_u_to_s; assumption) ].
 
@@ -121,7 +131,8 @@ Ltac run_cbn :=
   unfold run;
   match goal with |- context [compile ?e] => let c := eval vm_compute in (compile e) in change (compile e) with c end;
   cbv beta iota;
-  cbn [csem nth_error sem_i2 sem_icmp sem_i1 sem_idm sem_f2 sem_f1 sem_fcmp sem_l2 option_map fst snd].
+  cbn [csem nth_error sem_i2 sem_icmp sem_i1 sem_idm sem_f2 sem_f1 sem_fcmp sem_l2 option_map fst snd];
+  change (wrap_u 0) with 0 in *; change (wrap_u 1) with 1 in *.
 
 Ltac destruct_vals :=
   repeat match goal with
@@ -131,13 +142,24 @@ Ltac destruct_vals :=
   | H : decode _ _ _ = Some _ |- _ => cbn [decode] in H; injection H as <-
   end.
 
+(* int.__pow__ guards with `if exponent < 0: panic`: discharge the guard *)
+Ltac pow_guard :=
+  repeat match goal with
+  | |- context [ilt_s ?w 0] =>
+      let E := fresh "E" in
+      assert (E : ilt_s w 0 = false) by
+        (unfold ilt_s; change (to_s 0) with 0; unfold to_s, word, srange, M64, H64 in *;
+         repeat match goal with |- context [?w <? 9223372036854775808] => destruct (w <? 9223372036854775808) eqn:? end; lia);
+      rewrite E; cbv beta iota
+  end.
+
 Ltac finish :=
   first
-  [ reflexivity
+  [ synrefl
   | (apply fin_w; arith_goal)
   | (apply fin_wo; arith_goal)
   | (apply fin_p; arith_goal)
-  | (apply fin_b; first [reflexivity | cmp_goal]) ].
+  | (apply fin_b; first [synrefl | cmp_goal]) ].
 
 Ltac entry :=
   intros;
@@ -145,4 +167,58 @@ Ltac entry :=
   first [ exact I
         | (destruct_vals; model_cbn; ranges;
            first [ exact I
-                 | (eexists; split; [reflexivity|]; run_cbn; finish) ]) ].
+                 | (eexists; split; [synrefl || reflexivity|]; run_cbn; norm_to_s; pow_guard;
+                    cbn [csem nth_error sem_i2 option_map]; finish) ]) ].
+
+(* float -> int / nat: unwrap(trunc_s/u) *)
+Ltac trunc_entry :=
+  intros; compute_resolve; destruct_vals;
+  let Et := fresh "Et" in
+  match goal with H : conv_dom _ _ (PF ?f) |- _ =>
+    cbn [conv_dom] in H; destruct (f_trunc _ f) as [z|] eqn:Et; [|contradiction] end;
+  cbn [claim py_conv option_map]; rewrite Et; cbn [option_map encode encode1];
+  eexists; split; [reflexivity|]; run_cbn; unfold trunc_in; rewrite Et;
+  match goal with |- context [if ?c then _ else _] => replace c with true by (unfold M64, H64 in *; lia) end;
+  reflexivity.
+
+(* int(b) / nat(b): if b then 1 else 0 *)
+Ltac bool_entry :=
+  intros; compute_resolve; destruct_vals;
+  match goal with b : bool |- _ => destruct b end;
+  model_cbn; eexists; (split; [reflexivity|]); vm_compute; reflexivity.
+
+Ltac entry' := first [ entry | trunc_entry | bool_entry ].
+
+Ltac all_entries unf :=
+  cbn [list_prod map app];
+  repeat (apply Forall_cons; [ cbn [fst snd]; unf; timeout 60 entry' | ]); apply Forall_nil.
+
+Section Tables.
+Variable fm : FloatModel.
+
+Definition bin_entries : list (pybin * (gty * gty)) := list_prod all_pybin (list_prod all_gty all_gty).
+Definition un_entries : list (pyun * gty) := list_prod all_pyun all_gty.
+Definition ty_pairs : list (gty * gty) := list_prod all_gty all_gty.
+
+Lemma all_bin_ok : Forall (fun c => bin_ok fm (fst c) (fst (snd c)) (snd (snd c))) bin_entries.
+Proof. unfold bin_entries, all_pybin, all_gty. all_entries ltac:(unfold bin_ok). Qed.
+
+Lemma all_un_ok : Forall (fun c => un_ok fm (fst c) (snd c)) un_entries.
+Proof. unfold un_entries, all_pyun, all_gty. all_entries ltac:(unfold un_ok). Qed.
+
+Lemma all_not_ok : Forall (not_ok fm) all_gty.
+Proof. unfold all_gty. all_entries ltac:(unfold not_ok). Qed.
+
+Lemma all_conv_ok : Forall (fun c => conv_ok fm (fst c) (snd c)) ty_pairs.
+Proof. unfold ty_pairs, all_gty. all_entries ltac:(unfold conv_ok). Qed.
+
+Lemma all_abs_ok : Forall (abs_ok fm) all_gty.
+Proof. unfold all_gty. all_entries ltac:(unfold abs_ok). Qed.
+
+Lemma all_pow_ok : Forall (fun c => pow_ok fm (fst c) (snd c)) ty_pairs.
+Proof. unfold ty_pairs, all_gty. all_entries ltac:(unfold pow_ok). Qed.
+
+Lemma all_divmod_ok : Forall (fun c => divmod_ok fm (fst c) (snd c)) ty_pairs.
+Proof. unfold ty_pairs, all_gty. all_entries ltac:(unfold divmod_ok). Qed.
+
+End Tables.
